@@ -50,7 +50,7 @@ Definition spec_decode (f : flavour) (bs : list N) : option td_abs :=
   let flags := nth 5 bs 0 in
   let rv := N.testbit flags 2 in
   if N.testbit flags 0 then
-    (if nth 0 bs 0 =? 1 then Some (mkTdAbs k rv None [] []) else None)
+    (if nth 0 bs 0 =? 1 then Some (mkTdAbs k false None [] []) else None)   (* REVERSE_MERGE has no meaning without centroids *)
   else if N.testbit flags 1 then
     if negb (nth 0 bs 0 =? 1) || (length bs <? 8 + vsize f)%nat then None else
     let v := value_of f (field 8 (vsize f) bs) in
